@@ -19,6 +19,8 @@ type Cond struct {
 	Pol    bool
 	V      ssa.Value
 	Branch bool // direction in which V was taken (Pol = polarity of Atom after canonicalisation)
+	// Expanded: a positive call to a helper whose own acceptance conditions were merged into the same set
+	Expanded bool
 }
 
 func (c Cond) String() string {
@@ -813,6 +815,9 @@ func (p *Program) AcceptPaths(fn *ssa.Function, idx int, expand func(*ssa.Functi
 				for _, a := range alts {
 					for _, s := range sub {
 						merged := append([]Cond{}, a...)
+						if ci < len(merged) {
+							merged[ci].Expanded = true
+						}
 						for _, sc := range s {
 							merged = append(merged, Cond{Atom: sc.Atom.Subst(c.Atom.Fn, c.Atom.Args), Pol: sc.Pol, V: sc.V})
 						}
